@@ -43,6 +43,9 @@ func FuncValue(v ssa.Value, env Env) *ssa.Function {
 		if env != nil {
 			return env[x]
 		}
+	case *ssa.UnOp:
+		// a func field that always holds one method value of its own object (oncefield.go)
+		return OnceBoundField(x)
 	}
 	return nil
 }
